@@ -32,7 +32,7 @@ let wkind_of (kind : string) (h : int) (aux : int) : wkind =
   | "snap" -> WSnap
   | "trie" -> WTrie
   | "cstate" -> WCState (n h)
-  | "binfo" -> WBinfo (n h)
+  | "binfo" -> if aux = 1 then WBinfoAgain (n h) else WBinfo (n h)
   | "head" -> WHead (n h, aux = 1)
   | _ -> WOther
 
